@@ -201,7 +201,7 @@ def run(ctx):
                     ways["parse(serialize)"] = "err parse:" + type(e).__name__
             if _builder_ok(t):
                 try:
-                    ways["builder"] = real_eval(circgen.builder_circuit(t), f)
+                    ways["builder"] = real_eval(circgen.builder_circuit(t, rnd if rnd.random() < 0.5 else None), f)
                 except Exception as e:  # noqa
                     ways["builder"] = "err build:" + type(e).__name__
             if not isinstance(z1, str):
